@@ -268,7 +268,9 @@ def tgedmd_case(draw):
     # a constant in the first mode keeps Psi from vanishing
     c['phi'][0][0] = {'family': 'constant', 'index': 0}
     # overall scale of Psi (absolute and relative thresholds must be told apart): every function of mode 0 is multiplied ...
-    c['scale_exp'] = draw(st.sampled_from([0, 0, -8, 6]))
+    c['scale_exp'] = draw(st.sampled_from([0, 0, -8, 6, -14]))
+    # "no cut at all": threshold 0 (only on transformed data of full rank, every singular value is then inverted)
+    c['threshold_zero'] = draw(st.sampled_from([False, False, False, True]))
     c.update({'max_rank': draw(st.sampled_from([None, None, 1000, 2, 3, 4])),'m': draw(st.integers(4, 10)), 'reversible': draw(st.booleans()), 'reweight': draw(st.booleans()),
               'rel_threshold': draw(st.booleans()), 'threshold_exp': draw(st.sampled_from([-10, -9, -8])),
               'return_option': draw(st.sampled_from(['eigenfunctionevals', 'eigenvectors', 'eigentensors'])),
@@ -329,9 +331,12 @@ def body_tgedmd(c):
     Pw = Psi * np.sqrt(ww)[None, :]
     # guard bands on every unfolding of the weighted Psi
     T = Pw.reshape(n + [m])
+    tz = bool(c.get('threshold_zero')) and not (c.get('max_rank') and c['max_rank'] < 1000)
     for k in range(1, p + 1):
         sv = np.linalg.svd(T.reshape(int(np.prod(n[:k])), -1), compute_uv=False)
         assume(sv[0] > 0 and not np.any((sv > 1e-12 * sv[0]) & (sv < 1e-4 * sv[0])))
+        if tz:
+            assume(not np.any(sv <= 1e-12 * sv[0]))          # full rank: nothing that a vanishing threshold would have to cut
     U, S, Vh = np.linalg.svd(Pw, full_matrices=False)
     r = int(np.sum(S > 1e-8 * S[0]))
     assume(r >= 1)
@@ -385,6 +390,8 @@ def body_tgedmd(c):
     # confusing the two conventions on rescaled data cuts everything or nothing
     th = (10.0 ** max(c['threshold_exp'], -6)) * (1.0 if c['rel_threshold'] else S[0]) if c.get('scale_exp', 0) else \
         10.0 ** c['threshold_exp'] * (1.0 if c['rel_threshold'] else S[0])
+    if tz:
+        th = 0
     kw = dict(threshold=th, rel_threshold=c['rel_threshold'], return_option=c['return_option'])
     if c['num_eigvals'] is not None:
         kw['num_eigvals'] = c['num_eigvals']
@@ -443,6 +450,8 @@ def body_tgedmd(c):
         lab.add('max_rank_binds')
     if used_before:
         lab.add('basis_used_before')
+    if tz:
+        lab.add('threshold_zero')
     if c.get('output_freq'):
         lab.add('progress_output_requested')
     return lab
